@@ -61,6 +61,61 @@ CHECKS = {
              "the select on the Free arm; operands are exactly timer/fail/ready).",
         note="Not decided: wall-clock behaviour, tokio timer accuracy.",
         design="5/C11"),
+    "C01": dict(
+        technique="edge-guard (dominating comparison) rule + def-use provenance of keys and Resolve payloads (MIR)",
+        text="Decides: (G) every TrampolineInfo construction is dominated by the equal-edge of a whole-hash comparison between htlc.payment_hash and "
+             "payment_hash() of the stored invoice; (K) table key, wait/pay hash, table lookups, datastore keys are the invoice hash of the classified value; "
+             "(P) every Resolve key comes from pay's Ok, wait_payment's Ok(Some) or the stored Succeeded preimage; provider and store preserve it.",
+        note="Not decided: SHA-256(key) == hash (needs the node to return the right preimage); interleavings.", design="5/C01"),
+    "C03": dict(
+        technique="select-arm reachability + guard/provenance rules on the ready signal, the held sum and the PaymentRequest (MIR def-use, intervals)",
+        text="Decides R1 (pay only via the ready arm), R2 (ready only behind fee_sufficient(held sum, amount) and no fail request; single send site), R3 (held "
+             "sum discipline: one write, sum+htlc amount, overflow-free, counted<=>held), R4 (budget = held sum saturating-minus amount, read under the lock "
+             "after readiness), R5 (amount only for amountless invoices), R6 (provider forwards verbatim, no exemptfee/maxfeepercent/partial), R7 (held until fate known).",
+        note="Not decided: the inequality for every multiset by enumeration (follows from R2-R4 and C12); HTLC arrivals racing with the select.", design="5/C03"),
+    "C04": dict(
+        technique="operator-tree matching of the max-delay expression + who-writes rule on the minimum expiry + gate ordering (MIR)",
+        text="Decides E (max_cltv_delta = min(clamp_u16(satsub(satsub(min expiry, height), safety delta)), policy delta)), T (height/expiry read after readiness, "
+             "expiry under the lock), M (single min-update of the stored expiry on the listener-storing paths, initial u32::MAX), F (maxdelay forwarded), "
+             "G (relative-expiry gate before add, with the configured policy).",
+        note="Not decided: numeric value for every input by enumeration; height advancing between the read and the node's route computation.", design="5/C04"),
+    "C06": dict(
+        technique="panic-site discipline (guards/intervals/origins) over the handler scope + exactly-once path counting + lock-scope/latch rules (MIR)",
+        text="Decides P1 (every panic-capable site in handler scope discharged), P2 (exactly one answer per lifecycle path; effect futures awaited), P3 (complete "
+             "drain), P4/P5 (sender always registered; add-listener answers or stores), P6 (only latched sends awaited under the table lock; capacities>=1), "
+             "P7 (timer bound, C11), P8 (hook wrapper). One known finding: D7 (todo!() on wait_payment error while Pending).",
+        note="Not decided: termination of awaited RPCs, fairness, 'eventually'. Named exceptions are listed with reasons in rules/panics.py.", design="5/C06"),
+    "C07": dict(
+        technique="drain-loop structure rule + gate ordering/guard classification + select-arm provenance (MIR)",
+        text="Decides U1 (same cloned response to every popped listener; loop ends only on None; only push/pop mutate the list), U2 (one answer per lifecycle, one "
+             "lifecycle per entry), U3 (all three rejections precede add, have the stated guards/responses; fail flag disables readiness), U4 (fail arm forwards, no pay).",
+        note="Not decided: which of two simultaneously ready select arms tokio picks.", design="5/C07"),
+    "C10": dict(
+        technique="edge-guard rules + per-definition arm classification of the amount + iterator/selector shape of the route-hint gate (MIR)",
+        text="Decides H (hash gate), S (signature gate; payee/bolt11/invoice provenance; record path 16->33001), A (amount arm table per reaching definition; over-long "
+             "amount field = absent), R (last hop of any hint vs local key; Trampoline only via no-hint or allowed; else Fail), C (unusable metadata => continue).",
+        note="Not decided: lightning-invoice's parser/signature recovery (trusted).", design="5/C10"),
+    "C13": dict(
+        technique="MAY-effect summaries over the call graph + await-freedom of pre-lock paths + rewrite provenance (MIR)",
+        text="Decides N1 (paths that do not take the lock are Yield-free and call only synchronous effect-free functions; lock only for classified trampoline with "
+             "forward_msat), N2 (forwards and unusable metadata reach only continue), R1 (single rewrite = payload clone minus record 16, guarded), R2 (order-preserving "
+             "removal), R3 (C18-T1/L1 re-evaluated).",
+        note="Not decided: byte equality by enumeration (reduced to C18's clauses).", design="5/C13"),
+    "C14": dict(
+        technique="lock-scope analysis (guard live regions vs. Yield/poll sites) + latch rule + ADT field table (MIR)",
+        text="Decides L1 (for every payments-table guard: only add-listener/fail-requester awaited, which await only latched sends; no second lock/RPC), L2 (no shared "
+             "lock/channel/connection in Rpc/ClnDatastore/PayPaymentProvider; per-call connections; other guards never across await), K (per-hash keys; no globals), T (own task per entry).",
+        note="Not decided: fairness of tokio and of the node's RPC socket.", design="5/C14"),
+    "C15": dict(
+        technique="dominance/ordering of awaited RPCs + switch-table extraction of tolerated error codes + loop-shape rule (MIR)",
+        text="Decides V1 (preimage provenance), V2 (Ok(None) only after the stream of one waitsendpay per PENDING-listed part is exhausted; no skip/break/timeout), V3 (tolerated "
+             "codes exactly 202/203/204/208/209; nothing else continues or becomes Ok), V4 (PENDING listing returns before the COMPLETE query is issued), V5 (filters).",
+        note="Not decided: parts created after the snapshot by a pay still running in the node.", design="5/C15"),
+    "C16": dict(
+        technique="exit classification of pay() by dominating match arms (status-dispatch table) (MIR)",
+        text="Decides D (every exit after the pay RPC: Ok only with COMPLETE's preimage or wait_payment's Some; Err only after wait_payment==Ok(None), FAILED without "
+             "partial-completion warning, or wait_payment's propagated error; PENDING and RPC-error arms cannot exit without wait_payment), H (hash passed to wait_payment).",
+        note="Not decided: that CLN's `failed` without warning means no part pending.", design="5/C16"),
 }
 
 NOT_APPLICABLE = {}
